@@ -429,7 +429,11 @@ func TestC19Histories(t *testing.T) {
 
 // TestC19Exhaustive enumerates all histories of up to 3 requests over the outcome alphabet.
 func TestC19Exhaustive(t *testing.T) {
-	rec := ev.New("exhaustive")
+	unit := "exhaustive"
+	if os.Getenv("HERTZ_DISABLE_REQUEST_CONTEXT_POOL") == "true" {
+		unit = "exhaustive-nopool" // the server loop allocates its request context itself instead of taking it from the engine's pool
+	}
+	rec := ev.New(unit)
 	shard, nshards := ev.Shard()
 	var global, evals, nontriv int64
 	fails := 0
@@ -472,7 +476,7 @@ func TestC19Exhaustive(t *testing.T) {
 						}
 						if msg := Check(h); msg != "" {
 							fails++
-							ev.Fail(prop, "exhaustive", h, msg)
+							ev.Fail(prop, unit, h, msg)
 							t.Errorf("%s\nhistory: %+v", msg, *h)
 							if fails > 6 {
 								rec.Exact(evals, nontriv)
